@@ -704,9 +704,9 @@ theorem ensureRefblock_new {d : Dev} {off : Nat} (hidx : Host.rtIndex d.info off
     ensureRefblock off d =
       (withRefblock d (Host.rtIndex d.info off) (Host.rtIndex d.info off * d.info.rbEntries), .ok ()) := by
   have hcs : 0 < d.info.clusterSize := Nat.two_pow_pos _
-  unfold ensureRefblock withRefblock
-  dsimp only
-  rw [if_pos hidx, if_neg (not_not_intro hz), if_neg (not_not_intro hidx), Nat.mul_div_cancel _ hcs]
+  rw [ensureRefblock_inb hidx, ensureRefblockIn_eq, if_neg (not_not_intro hidx), if_pos hz]
+  unfold withRefblockAt withRefblock
+  rw [Nat.mul_div_cancel _ hcs]
 
 /-- **new refblock**: `ensure_refblock_offset` on a zero reftable entry puts the
     refblock at the first cluster of the range it describes, with refcount 1 and
@@ -1097,9 +1097,7 @@ theorem AllocOne.hint {d d1 : Dev} {h : Nat} (a : AllocOne d d1 h) (x : Nat) :
 theorem ensureRefblock_existing {d : Dev} {off : Nat} (hidx : Host.rtIndex d.info off < d.rtLen)
     (hnz : RT.isZero (d.rt.get (Host.rtIndex d.info off)) = false) :
     ensureRefblock off d = (d, .ok ()) := by
-  unfold ensureRefblock
-  dsimp only
-  rw [if_pos hidx, if_pos (by simp [hnz])]
+  rw [ensureRefblock_inb hidx, ensureRefblockIn_eq, if_neg (not_not_intro hidx), if_neg (by simp [hnz])]
 
 /-- `allocate_clusters(1)` when the refblock of the hint exists and its slice has
     a free cluster at or after the hint: one `try_alloc_from_rb_slice`, then the
